@@ -5,7 +5,7 @@ import warnings
 import numpy as np
 
 from common import driver_batch, f2b, b2f
-from modelspec import dump_prop, dump_rule, dump_term, TWO_PI
+from modelspec import dump_prop, dump_rule, dump_term, props_from_spec, TWO_PI
 
 ALARM_P = 1e-9
 SPECIES = ["A", "B", "C", "S"]
@@ -87,6 +87,7 @@ def splitter_corr(ctx, rng, n):
     idx = M.get_species2index()
     names = sorted(idx, key=lambda s: idx[s])
     jobs, cases = [], []
+    general_sp = GeneralVolumeSplitter()
     for i in range(n):
         kind = rng.choice(["perfectbinomial", "general", "lineage", "lineage"])
         state = [float(rng.choice([0, 1, 2, 3, 7, 10, 37, 100, rng.randint(0, 400)])) for _ in names]
@@ -101,19 +102,27 @@ def splitter_corr(ctx, rng, n):
             modes = {s: "binomial" for s in names}
             volume, noise = "perfect", 0.0
         elif kind == "general":
-            sp = GeneralVolumeSplitter()
+            # one splitter object re-configured from case to case, as the API allows; a mode with no species may be left
+            # out of the options altogether
+            sp = general_sp
             opts = {"perfect": [s for s in names if modes[s] == "perfect"], "duplicate": [s for s in names if modes[s] == "duplicate"]}
+            for key in ("perfect", "duplicate"):
+                if not opts[key] and rng.chance(1, 2):
+                    del opts[key]
+            if rng.chance(1, 4):
+                opts["binomial"] = [s for s in names if modes[s] == "binomial"]
             sp.py_set_partitioning(opts, M)
             sp.py_set_partition_noise(noise)
             # perfect in option order; "everything else" binomial in the order of list(set(...)): ascending for small ints
-            job.update({"noise": f2b(noise), "perfect": [int(idx[s]) for s in opts["perfect"]],
+            job.update({"noise": f2b(noise), "perfect": [int(idx[s]) for s in opts.get("perfect", [])],
                         "binomial": sorted(int(idx[s]) for s in names if modes[s] == "binomial")})
         else:
             volume = rng.choice(["binomial", "binomial", "perfect", "duplicate"])
             noise = rng.choice([0.0, 0.2, 0.5, 1.0])
             sp = lineage_splitter(M, modes, volume, noise)
             job.update(splitter_json(M, modes, volume, noise))
-        case = {"splitter": kind, "modes": modes, "volume": volume, "noise": noise, "state": state, "vol": vol, "seed": seed}
+        case = {"splitter": kind, "modes": modes, "volume": volume, "noise": noise, "state": state, "vol": vol, "seed": seed,
+                "options": opts if kind == "general" else None, "reconfigured_object": kind == "general"}
         ctx.begin_case(case)
         py_seed_random(seed)
         d, e = sp.py_partition(_cell(state, vol, 1.5))
@@ -333,7 +342,7 @@ def lineage_job(spec, M, T, seed, single):
     sj = [splitter_json(M, s["modes"], s["volume"], s["noise"]) for s in spec["splitters"]]
     x0 = np.array(M.get_species_array(), dtype=float)
     return {"op": "lineage", "num": "float", "single": bool(single), "nSpecies": int(U.shape[0]),
-            "props": [dump_prop(q, enc) for q in M.get_propensities()],
+            "props": props_from_spec([dump_prop(q, enc) for q in M.get_propensities()], spec if "reactions" in spec else None, M),
             "evProps": [dump_prop(q, enc) for q in M.py_get_lineage_propensities()],
             "U": [[int(v) for v in U[:, j]] for j in range(U.shape[1])],
             "rules": [dump_rule(r, enc) for r in rules], "volRules": vr, "divRules": dr, "deathRules": de, "volEvents": ve,
